@@ -368,6 +368,17 @@ func TestC12_Grid(t *testing.T) {
 			}
 		}
 	}
+	// every combination of request features (client address, server identifier, broadcast flag, requested address,
+	// relay address, client identifier / v6: server id, IA, elapsed time, type, size) × every destination
+	for _, v6 := range []bool{false, true} {
+		for variant := 4; variant < 4+64; variant++ {
+			for dest := 0; dest < 4; dest++ {
+				sc := c12Scenario(v6, 1e6/16, 2, variant, -1, 0)
+				sc.Dest = dest
+				c12.one(t, sc)
+			}
+		}
+	}
 	c12.rec.Class("full grid")
 }
 
@@ -383,7 +394,7 @@ func genC12Sequence(v6 bool) *rapid.Generator[cliScenario] {
 		overlap := rapid.Bool().Draw(t, "overlap")
 		serial := 1
 		for i := 0; i < n; i++ {
-			c := cliCall{Start: callStart(i, after), Xid: i % 3, Variant: rapid.IntRange(0, 3).Draw(t, "variant"), Matcher: 1, Want: types[0], CancelAt: -1, Deadline: -1}
+			c := cliCall{Start: callStart(i, after), Xid: i % 3, Variant: rapid.IntRange(0, 3+64).Draw(t, "variant"), Matcher: 1, Want: types[0], CancelAt: -1, Deadline: -1}
 			if overlap && i%3 != 0 {
 				c.Xid = (i + 1) % 3 // overlapping calls need distinct ids
 			}
@@ -420,7 +431,7 @@ func TestC12_Rapid(t *testing.T) {
 			k = rapid.IntRange(0, n-1).Draw(rt, "try")
 		}
 		T := rapid.SampledFrom([]int64{1e6, 10e6, 250e6, 1e9, 5e9, 48e6}).Draw(rt, "T")
-		sc := c12Scenario(rapid.Bool().Draw(rt, "v6"), T/16, tries, rapid.IntRange(0, 3).Draw(rt, "variant"), k, rapid.IntRange(0, 2).Draw(rt, "pos"))
+		sc := c12Scenario(rapid.Bool().Draw(rt, "v6"), T/16, tries, rapid.IntRange(0, 3+64).Draw(rt, "variant"), k, rapid.IntRange(0, 2).Draw(rt, "pos"))
 		sc.Dest = rapid.IntRange(0, 3).Draw(rt, "dest")
 		if tries < 0 && rapid.Bool().Draw(rt, "cancel") {
 			sc.Calls[0].CancelAt = evTick(rapid.IntRange(1, 16*40).Draw(rt, "cancelat"))
